@@ -174,8 +174,9 @@ fn run_site(site: u16) -> bool {
 /// scheduling point
 pub fn at(site: u16) {
     let any = run_site(site);
-    if site == super::SITE_ABW_SLEEP && !any {
-        // sleeping for a peer that will never come (nobody else can run)
+    if site == super::SITE_ABW_SLEEP && !any && spin_cut(site) {
+        // sleeping for a peer that will never come: nothing is scheduled at this site any more
+        // and nobody else can run
         stuck("async_blocking_wait");
     }
 }
